@@ -70,7 +70,7 @@ def distance_cases(draw, tier):
         else:
             t = draw(st.sampled_from([0.25, 0.5, 0.75])) if mode == 'on' else draw(st.sampled_from([-1.0, -0.5, 1.5, 2.0, 3.0]))
             pts.append([a[0] + t * (b[0] - a[0]), a[1] + t * (b[1] - a[1])])
-    return {'kind': 'distance', 'k': k, 'geo': geo, 'a': a, 'b': b, 'pts': pts}
+    return {'kind': 'distance', 'k': k, 'geo': geo, 'a': a, 'b': b, 'pts': pts, 'int_pts': draw(st.integers(0, 3)) == 0}
 
 
 def dist_tol(ref, p, a, b, scale):
@@ -85,10 +85,15 @@ def oracle_distance(case, rec):
     a = np.array(case['a'], dtype=float)
     b = np.array(case['b'], dtype=float)
     p = np.array(case['pts'], dtype=float).reshape(-1, 2)
+    p_arg = p
+    if case.get('int_pts') and float(np.max(np.abs(p))) < 2 ** 30:
+        p = np.round(p)                  # integer-typed points, end points stay fractional
+        p_arg = p.astype(np.int64)
+        rec.tag('dist:int-points')
     scale = max(1e-300, float(np.max(np.abs(np.vstack([p, a, b])))))
     fa, fb = X.pt(a), X.pt(b)
     rec.tag('dist:k=%d' % case['k'], 'dist:a==b' if fa == fb else 'dist:a!=b', 'dist:geo=' + case.get('geo', 'plain'))
-    out = rec.call(8, L.lf.shortest_distance_points, p, a, b, _site='lf.shortest_distance_points')
+    out = rec.call(8, L.lf.shortest_distance_points, p_arg, a, b, _site='lf.shortest_distance_points')
     clamped = unclamped = False
     if out is not FAILED:
         out = np.asarray(out, dtype=float)
@@ -105,7 +110,7 @@ def oracle_distance(case, rec):
                              'p=%r a=%r b=%r impl=%r ref=%r tol=%g' % (p[i].tolist(), a.tolist(), b.tolist(), float(out[i]), ref, tol))
                     break
     if fa != fb:
-        out = rec.call(8, L.lf.perpendicular_distance_points, p, a, b, _site='lf.perpendicular_distance_points')
+        out = rec.call(8, L.lf.perpendicular_distance_points, p_arg, a, b, _site='lf.perpendicular_distance_points')
         if out is not FAILED:
             out = np.asarray(out, dtype=float)
             if rec.check(out.shape == (len(p),), 'perpendicular:shape', out.shape):
